@@ -93,6 +93,9 @@ def _worker(modname, spec, prop, tier, seed, timeout_ms, marker=None, budget=Non
         ses = Session(prop, tier, seed, timeout_ms=timeout_ms)
         ses.findings = []
         mod.run_case(spec, ses)
+        left = getattr(ses.stats, 'sat_labels', [])
+        if left and not ses.findings:
+            raise HarnessError('obligation(s) answered `sat` but neither reported nor dismissed: %s' % left[:3])
         out.stats = ses.stats
         out.findings = ses.findings
     except HarnessError as e:
